@@ -5760,6 +5760,9 @@ class SFTPClient:
 
             names, _ = await self._handler.realpath(path_bytes)
 
+        if not names:
+            raise SFTPBadMessage('No names returned')
+
         if len(names) > 1:
             raise SFTPBadMessage('Too many names returned')
 
@@ -5839,6 +5842,9 @@ class SFTPClient:
 
         linkpath = self.compose_path(path)
         names, _ = await self._handler.readlink(linkpath)
+
+        if not names:
+            raise SFTPBadMessage('No names returned')
 
         if len(names) > 1:
             raise SFTPBadMessage('Too many names returned')
